@@ -130,3 +130,117 @@ def rand_rtp(rng, ssrc, seq, ext_ok=True, ids=None, big=False):
 def rand_rtcp(rng, ssrc):
     n = rng.choice([0, 4, 16, 20, 44, 100])
     return rtcp_packet(ssrc, rand_key(rng, n), pt=rng.choice([200, 201, 202]))
+
+
+def replay_history(rng, tier, rtcp=False, n_ssrc=None, steps=None):
+    """sender session 1 / receiver session 2; adversarial delivery order.  Annotations:
+       # S <ssrc> <idx>            after a protect (true index of the packet just made)
+       # D <ssrc> <idx> <line>     after an unprotect delivering the packet made at <line>"""
+    wildcard = rng.random() < 0.4
+    n_ssrc = n_ssrc or rng.choice([1, 1, 2, 3])
+    ssrcs = [rng.randrange(2, 1 << 32) for _ in range(n_ssrc)]
+    ws = rng.choice([0, 64, 65, 96, 127, 128, 1024, 32767])
+    L = []
+    if wildcard:
+        ps = default_policy(rng, 0, ssrc_type=SSRC_ANY_OUT, window=ws)
+        pr = default_policy(rng, 0, ssrc_type=SSRC_ANY_IN, window=ws, keys=ps.keys)
+        L += [ps.line(1), pr.line(2), "create 1 1", "create 2 2"]
+    else:
+        pols = [default_policy(rng, s, window=ws) for s in ssrcs]
+        for j, p in enumerate(pols):
+            L.append(p.line(1 + j))
+        ids = " ".join(H(1 + j) for j in range(len(pols)))
+        L += [f"create 1 {ids}", f"create 2 {ids}"]
+    eff_ws = 128 if ws == 0 else ws
+    hi = {s: None for s in ssrcs}           # sender's highest index
+    pool = {s: [] for s in ssrcs}           # (line, idx)
+    start = {s: rng.choice([0, 1, 100, 32767, 32768, 65000, 65535]) for s in ssrcs}
+    steps = steps or (80 if tier == "quick" else 600)
+    for _ in range(steps):
+        s = rng.choice(ssrcs)
+        if rtcp:
+            if not pool[s] or rng.random() < 0.45:
+                if pool[s] and rng.random() < 0.08:
+                    # far-future jump of the sender's counter
+                    j = hi[s] + rng.choice([200, 1000, 1 << 20])
+                    if j < 0x7ffffff0:
+                        L.append(f"poke_rtcp 1 0 {H(s)} {H(j)}"); hi[s] = j
+                rp = rtcp_packet(s, rand_key(rng, 8))
+                L.append(pkt_op("protect_rtcp", 1, rp, extra=40))
+                hi[s] = (hi[s] or 0) + 1
+                pool[s].append((len(L), hi[s])); L.append(f"# S {s:x} {hi[s]:x}")
+            else:
+                line, idx = rng.choice(pool[s][-6:] if rng.random() < 0.6 else pool[s])
+                L.append(pkt_op("unprotect_rtcp", 2, f"@{line:x}", cap=100)); L.append(f"# D {s:x} {idx:x} {line:x}")
+        else:
+            if not pool[s] or rng.random() < 0.45:
+                if hi[s] is None:
+                    idx = start[s]
+                else:
+                    idx = hi[s] + rng.choice([1, 1, 1, 2, 3, eff_ws - 1, eff_ws, eff_ws + 1, 5000, 30000])
+                hi[s] = idx
+                pkt = rtp_packet(s, idx & 0xffff, payload=idx.to_bytes(6, "big"))
+                L.append(pkt_op("protect", 1, pkt, extra=40))
+                pool[s].append((len(L), idx)); L.append(f"# S {s:x} {idx:x}")
+            else:
+                line, idx = rng.choice(pool[s][-8:] if rng.random() < 0.7 else pool[s])
+                L.append(pkt_op("unprotect", 2, f"@{line:x}", cap=100)); L.append(f"# D {s:x} {idx:x} {line:x}")
+                if rng.random() < 0.2:
+                    L.append(f"getroc 2 {H(s)}"); L.append(f"# R {s:x}")
+    L += ["dealloc 1", "dealloc 2"]
+    return "\n".join(L) + "\n", ws
+
+
+def replay_monitor(script, c, rtcp=False):
+    from lib.gen import RtpRef, RtcpRef
+    hits = []
+    sl = script.split("\n")
+    out = {int(l.split()[0]): l.split() for l in c if l.strip()}
+    ws = None
+    for l in sl:
+        if l.startswith("policy"):
+            ws = int(l.split()[20], 16); break
+    refs = {}
+    for i, l in enumerate(sl, 1):
+        t = l.split()
+        if len(t) < 2 or t[0] != "#":
+            continue
+        if t[1] == "D":
+            s, idx, line = t[2], int(t[3], 16), int(t[4], 16)
+            src = out.get(line, [])
+            o = out.get(i - 1, [])
+            if len(src) < 3 or int(src[2], 16) != 0 or len(o) < 3:
+                continue
+            ref = refs.setdefault(s, RtcpRef() if rtcp else RtpRef(128 if ws == 0 else ws))
+            ok = int(o[2], 16) == 0
+            if not rtcp and ((ref.seen and abs(idx - ref.hi) >= 32768) or (not ref.seen and idx >= 65536)):
+                # beyond what the index estimator can follow: outside the property's premise;
+                # keep the reference in step with what the receiver did
+                if ok and idx not in ref.seen:
+                    ref.add(idx)
+                continue
+            want = ref.verdict(idx)
+            pre = "SRTCP" if rtcp else "SRTP"
+            if ok and idx in ref.seen:
+                hits.append({"what": f"{pre} receiver accepted the same packet index twice", "signature": f"{pre.lower()}-api-accepted-twice",
+                             "detail": f"line {i-1}: index {idx:x}"}); return hits
+            if ok and want is False:
+                hits.append({"what": f"{pre} receiver accepted a packet at or beyond the replay window behind the highest accepted index",
+                             "signature": f"{pre.lower()}-api-old-accepted", "detail": f"line {i-1}: index {idx:x} highest {ref.hi:x}"}); return hits
+            if not ok and want is True:
+                hits.append({"what": f"{pre} receiver rejected an authentic unseen packet inside the window",
+                             "signature": f"{pre.lower()}-api-fresh-rejected", "detail": f"line {i-1}: index {idx:x} highest {ref.hi} status {o[2]}"}); return hits
+            if ok:
+                ref.add(idx)
+                # payload decrypts to what was sent (C06: same index on both sides)
+                sent = sl[line - 1].split("|")[1].strip()
+                if len(o) > 4 and o[4] != sent:
+                    hits.append({"what": "accepted packet does not decrypt to the original (index out of sync)", "signature": f"{pre.lower()}-api-wrong-plaintext",
+                                 "detail": f"line {i-1}"}); return hits
+        elif t[1] == "R":
+            o = out.get(i - 1, [])
+            ref = refs.get(t[2])
+            if ref and ref.seen and len(o) > 3 and int(o[2], 16) == 0 and int(o[3], 16) != ref.hi >> 16:
+                hits.append({"what": "receiver's rollover counter differs from the ROC of the highest accepted packet", "signature": "roc-out-of-sync",
+                             "detail": f"line {i-1}: roc {o[3]} expected {ref.hi >> 16:x}"}); return hits
+    return hits
